@@ -1,7 +1,1010 @@
-//! Lane `url` (stub).
-use crate::out::Out;
+//! Lane `url` (C20): `ldap3::get_url_params` behind the real `url::Url::parse` vs Model.Url, the
+//! environment assumption (the `url` crate hands path/query through unchanged) and the RFC 4516
+//! round-trip / error oracles.
+//!
+//! Every URL is produced by this lane's OWN RFC 4516 formatter (`encode_comps` / `fmt_raw`, tied to
+//! the Lean `Spec.format` by O lines), goes through the real `Url::parse`, then through the real
+//! `get_url_params`.
+use crate::fmtx::{fnv, hex};
+use crate::out::{guarded, Out};
 use crate::rng::Rng;
+use ldap3::{get_url_params, LdapError, LdapUrlExt, Scope};
+use url::Url;
 
-pub fn run(_thorough: bool, _rng: Rng, out: Out) {
-    out.finish("stub lane: nothing generated yet");
+// ---------------------------------------------------------------------------------------------
+// RFC 4516 formatter (independent of ldap3 and of the percent-encoding crate)
+
+#[derive(Clone, Copy, PartialEq, Debug)]
+enum Style {
+    Strict,
+    StrictLc,
+    Minimal,
+    MinimalLc,
+}
+
+impl Style {
+    fn name(self) -> &'static str {
+        match self {
+            Style::Strict => "strict",
+            Style::StrictLc => "strict-lc",
+            Style::Minimal => "minimal",
+            Style::MinimalLc => "minimal-lc",
+        }
+    }
+    fn upper(self) -> bool {
+        matches!(self, Style::Strict | Style::Minimal)
+    }
+    fn minimal(self) -> bool {
+        matches!(self, Style::Minimal | Style::MinimalLc)
+    }
+}
+
+const STYLES: &[Style] = &[Style::Strict, Style::StrictLc, Style::Minimal, Style::MinimalLc];
+
+fn unreserved(b: u8) -> bool {
+    b.is_ascii_alphanumeric() || b == b'-' || b == b'.' || b == b'_' || b == b'~'
+}
+
+/// sub-delims plus `:` `@` `/`, never `?`
+fn rfc_raw(b: u8) -> bool {
+    unreserved(b) || b"!$&'()*+,;=:@/".contains(&b)
+}
+
+#[derive(Clone, Copy)]
+enum Pos {
+    Dn,
+    Filter,
+    Val,
+}
+
+fn pct_encode(style: Style, pos: Pos, s: &[u8]) -> String {
+    let mut o = String::new();
+    for &b in s {
+        let raw = if style.minimal() {
+            rfc_raw(b) && !(matches!(pos, Pos::Val) && b == b',')
+        } else {
+            unreserved(b)
+        };
+        if raw {
+            o.push(b as char);
+        } else if style.upper() {
+            o.push_str(&format!("%{:02X}", b));
+        } else {
+            o.push_str(&format!("%{:02x}", b));
+        }
+    }
+    o
+}
+
+#[derive(Clone, Debug)]
+struct ExtC {
+    name: String,
+    critical: bool,
+    value: Option<String>,
+}
+
+#[derive(Clone, Debug)]
+struct Comps {
+    base: String,
+    attrs: Vec<String>,
+    scope: Option<u8>,
+    filter: Option<String>,
+    exts: Vec<ExtC>,
+}
+
+/// text of the dn and of the four query fields
+#[derive(Clone, Debug)]
+struct Raw {
+    dn: String,
+    attrs: String,
+    scope: String,
+    filter: String,
+    exts: Vec<String>,
+}
+
+fn scope_word(s: Option<u8>) -> &'static str {
+    match s {
+        None => "",
+        Some(0) => "base",
+        Some(1) => "one",
+        _ => "sub",
+    }
+}
+
+fn fmt_ext_raw(critical: bool, name: &str, val_txt: Option<&str>) -> String {
+    let mut o = String::new();
+    if critical {
+        o.push('!');
+    }
+    o.push_str(name);
+    if let Some(v) = val_txt {
+        o.push('=');
+        o.push_str(v);
+    }
+    o
+}
+
+fn encode_comps(style: Style, c: &Comps) -> Raw {
+    Raw {
+        dn: pct_encode(style, Pos::Dn, c.base.as_bytes()),
+        attrs: c.attrs.join(","),
+        scope: scope_word(c.scope).to_string(),
+        filter: match &c.filter {
+            None => String::new(),
+            Some(f) => pct_encode(style, Pos::Filter, f.as_bytes()),
+        },
+        exts: c
+            .exts
+            .iter()
+            .map(|e| fmt_ext_raw(e.critical, &e.name, e.value.as_ref().map(|v| pct_encode(style, Pos::Val, v.as_bytes())).as_deref()))
+            .collect(),
+    }
+}
+
+fn min_fields(r: &Raw) -> usize {
+    if !r.exts.join(",").is_empty() {
+        4
+    } else if !r.filter.is_empty() {
+        3
+    } else if !r.scope.is_empty() {
+        2
+    } else if !r.attrs.is_empty() {
+        1
+    } else {
+        0
+    }
+}
+
+/// `keep` = number of query fields written (0 = no `?`)
+fn fmt_raw(r: &Raw, slash: bool, keep: usize) -> (String, Option<String>) {
+    let path = format!("{}{}", if slash { "/" } else { "" }, r.dn);
+    let fields = [r.attrs.clone(), r.scope.clone(), r.filter.clone(), r.exts.join(",")];
+    let query = if keep == 0 { None } else { Some(fields[..keep.min(4)].join("?")) };
+    (path, query)
+}
+
+// ---------------------------------------------------------------------------------------------
+// canonical text of outcomes (same as Driver.showUrlResult)
+
+fn show_ok(base: &[u8], attrs: &[Vec<u8>], scope: u8, filter: &[u8], exts: &[(String, Vec<u8>)]) -> String {
+    let mut e: Vec<(String, Vec<u8>)> = exts.to_vec();
+    e.sort();
+    format!(
+        "ok base={} attrs=[{}] scope={} filter={} exts=[{}]",
+        hex(base),
+        attrs.iter().map(|a| hex(a)).collect::<Vec<_>>().join(","),
+        scope,
+        hex(filter),
+        e.iter().map(|(k, v)| format!("{}:{}", k, hex(v))).collect::<Vec<_>>().join(",")
+    )
+}
+
+fn real_outcome(url: &Url) -> String {
+    let u = url.clone();
+    match guarded(move || match get_url_params(&u) {
+        Ok(p) => {
+            let exts: Vec<(String, Vec<u8>)> = p
+                .extensions
+                .iter()
+                .map(|e| match e {
+                    LdapUrlExt::Bindname(v) => ("bindname".to_string(), v.as_bytes().to_vec()),
+                    LdapUrlExt::XBindpw(v) => ("xbindpw".to_string(), v.as_bytes().to_vec()),
+                    LdapUrlExt::Credentials(v) => ("credentials".to_string(), v.as_bytes().to_vec()),
+                    LdapUrlExt::SaslMech(v) => ("saslmech".to_string(), v.as_bytes().to_vec()),
+                    LdapUrlExt::StartTLS => ("starttls".to_string(), vec![]),
+                    LdapUrlExt::Unknown(v) => ("unknown".to_string(), v.as_bytes().to_vec()),
+                })
+                .collect();
+            let attrs: Vec<Vec<u8>> = p.attrs.iter().map(|a| a.as_bytes().to_vec()).collect();
+            let scope = match p.scope {
+                Scope::Base => 0,
+                Scope::OneLevel => 1,
+                Scope::Subtree => 2,
+            };
+            show_ok(p.base.as_bytes(), &attrs, scope, p.filter.as_bytes(), &exts)
+        }
+        Err(LdapError::DecodingUTF8) => "err DecodingUTF8".to_string(),
+        Err(LdapError::InvalidScopeString(_)) => "err InvalidScope".to_string(),
+        Err(LdapError::UnrecognizedCriticalExtension(_)) => "err UnrecognizedCritical".to_string(),
+        Err(_) => "err Other".to_string(),
+    }) {
+        Ok(s) => s,
+        Err(_) => "panic".to_string(),
+    }
+}
+
+// ---------------------------------------------------------------------------------------------
+// a case: the text that is written and, independently, what RFC 4516 + the property text say must
+// come back (`None` = "this piece is not valid UTF-8 after percent-decoding" / "not a scope word")
+
+#[derive(Clone, Debug)]
+struct ExtT {
+    txt: String,
+    name: String,
+    critical: bool,
+    val: Option<Vec<u8>>,
+}
+
+#[derive(Clone, Debug)]
+struct Case {
+    dn_txt: String,
+    dn_val: Option<Vec<u8>>,
+    attrs_txt: String,
+    attrs_val: Vec<Vec<u8>>,
+    scope_txt: String,
+    scope_val: Option<u8>,
+    filter_txt: String,
+    filter_val: Option<Vec<u8>>,
+    exts: Vec<ExtT>,
+}
+
+const DEFAULT_FILTER: &[u8] = b"(objectClass=*)";
+
+/// independent classification of extension types: names case-insensitively, OIDs as written
+fn kind_of(name: &str) -> Option<&'static str> {
+    match name {
+        "1.3.6.1.4.1.10094.1.5.1" => Some("credentials"),
+        "1.3.6.1.4.1.10094.1.5.2" => Some("saslmech"),
+        "1.3.6.1.4.1.1466.20037" => Some("starttls"),
+        _ => {
+            if name.eq_ignore_ascii_case("bindname") {
+                Some("bindname")
+            } else if name.eq_ignore_ascii_case("x-bindpw") {
+                Some("xbindpw")
+            } else {
+                None
+            }
+        }
+    }
+}
+
+fn case_of(style: Style, c: &Comps) -> Case {
+    let r = encode_comps(style, c);
+    Case {
+        dn_txt: r.dn,
+        dn_val: Some(c.base.as_bytes().to_vec()),
+        attrs_txt: r.attrs,
+        attrs_val: if c.attrs.is_empty() { vec![b"*".to_vec()] } else { c.attrs.iter().map(|a| a.as_bytes().to_vec()).collect() },
+        scope_txt: r.scope,
+        scope_val: Some(c.scope.unwrap_or(2)),
+        filter_txt: r.filter,
+        filter_val: Some(c.filter.as_ref().map(|f| f.as_bytes().to_vec()).unwrap_or(DEFAULT_FILTER.to_vec())),
+        exts: c
+            .exts
+            .iter()
+            .zip(r.exts.iter())
+            .map(|(e, t)| ExtT {
+                txt: t.clone(),
+                name: e.name.clone(),
+                critical: e.critical,
+                val: Some(e.value.as_ref().map(|v| v.as_bytes().to_vec()).unwrap_or_default()),
+            })
+            .collect(),
+    }
+}
+
+impl Case {
+    fn raw(&self) -> Raw {
+        Raw {
+            dn: self.dn_txt.clone(),
+            attrs: self.attrs_txt.clone(),
+            scope: self.scope_txt.clone(),
+            filter: self.filter_txt.clone(),
+            exts: self.exts.iter().map(|e| e.txt.clone()).collect(),
+        }
+    }
+    /// the errors the property text attaches to this URL (any of them is a correct answer when
+    /// several apply; which one wins is the model's business, checked by the M line)
+    fn errors(&self) -> Vec<&'static str> {
+        let mut v = vec![];
+        if self.dn_val.is_none() || self.filter_val.is_none() || self.exts.iter().any(|e| e.val.is_none()) {
+            v.push("err DecodingUTF8");
+        }
+        if self.scope_val.is_none() {
+            v.push("err InvalidScope");
+        }
+        if self.exts.iter().any(|e| e.critical && kind_of(&e.name).is_none()) {
+            v.push("err UnrecognizedCritical");
+        }
+        v
+    }
+    /// the components with defaults, first extension of a kind, unknown non-critical dropped
+    fn expected_ok(&self) -> String {
+        let mut exts: Vec<(String, Vec<u8>)> = vec![];
+        for e in &self.exts {
+            if let Some(k) = kind_of(&e.name) {
+                if !exts.iter().any(|(k2, _)| k2 == k) {
+                    let v = if k == "starttls" { vec![] } else { e.val.clone().unwrap_or_default() };
+                    exts.push((k.to_string(), v));
+                }
+            }
+        }
+        show_ok(
+            self.dn_val.as_deref().unwrap_or(&[]),
+            &self.attrs_val,
+            self.scope_val.unwrap_or(2),
+            self.filter_val.as_deref().unwrap_or(&[]),
+            &exts,
+        )
+    }
+}
+
+// ---------------------------------------------------------------------------------------------
+// generators
+
+const ALPHABET: &[&str] = &[
+    "?", ",", "=", "%", "#", " ", "/", "é", "𝄞", "+", "!", "a", "b", "c", "d", "n", "o", "x", "Z", "0", "1", "7", "(", ")", "*", "&", "|", "\\", "\"", "<", ">", ";", ":", "@", ".", "-",
+    "_", "~", "ü", "€", "日", "\u{7f}", "\t", "'", "[", "]", "{", "}", "^", "`", "$", "%41", "%zz", "%c3", "..", "\u{10ffff}", "\u{80}",
+];
+
+fn gen_text(rng: &mut Rng, max: u64) -> String {
+    let n = rng.below(max + 1);
+    let mut s = String::new();
+    for _ in 0..n {
+        s.push_str(*rng.pick(ALPHABET));
+    }
+    s
+}
+
+fn gen_dn(rng: &mut Rng) -> String {
+    match rng.below(10) {
+        0 => String::new(),
+        1..=4 => {
+            // RDN-shaped
+            let n = rng.range(1, 3);
+            (0..n)
+                .map(|_| format!("{}={}", rng.pick(&["cn", "ou", "o", "dc", "uid", "2.5.4.3"]), gen_text(rng, 5)))
+                .collect::<Vec<_>>()
+                .join(",")
+        }
+        _ => gen_text(rng, 8),
+    }
+}
+
+fn gen_filter(rng: &mut Rng) -> String {
+    match rng.below(4) {
+        0 => format!("({}={})", rng.pick(&["cn", "sn", "objectClass"]), gen_text(rng, 5)),
+        1 => format!("(&(cn={})(|(sn=*{}*)(!(o={}))))", gen_text(rng, 3), gen_text(rng, 2), gen_text(rng, 2)),
+        _ => {
+            let mut s = gen_text(rng, 8);
+            if s.is_empty() {
+                s.push('(');
+            }
+            s
+        }
+    }
+}
+
+const ATTR_CHARS: &[u8] = b"abcdefghijklmnopqrstuvwxyzABCDEFGHIJKLMNOPQRSTUVWXYZ0123456789-.;";
+
+fn gen_attr(rng: &mut Rng) -> String {
+    match rng.below(8) {
+        0 => "*".to_string(),
+        1 => "+".to_string(),
+        2 => "1.1".to_string(),
+        3 => rng.pick(&["cn", "sn", "objectClass", "userCertificate;binary", "cn;lang-de;lang-en", "2.5.4.3"]).to_string(),
+        _ => {
+            let n = rng.range(1, 8);
+            (0..n).map(|_| *rng.pick(ATTR_CHARS) as char).collect()
+        }
+    }
+}
+
+const OID_CRED: &str = "1.3.6.1.4.1.10094.1.5.1";
+const OID_MECH: &str = "1.3.6.1.4.1.10094.1.5.2";
+const OID_TLS: &str = "1.3.6.1.4.1.1466.20037";
+
+fn mixed_case(rng: &mut Rng, s: &str) -> String {
+    s.chars().map(|c| if rng.chance(1, 2) { c.to_ascii_uppercase() } else { c }).collect()
+}
+
+const UNKNOWN_NAMES: &[&str] = &[
+    "x-foo", "1.2.3.4", "bindnam", "bindname2", "", "e-bindname", "x-bindpwd", "xbindpw", "1.3.6.1.4.1.10094.1.5.3", "1.3.6.1.4.1.1466.2003", "1.3.6.1.4.1.1466.200370",
+    "1.3.6.1.4.1.10094.1.5.10", "BIND-NAME", "x_bindpw", "b", "X",
+];
+
+fn gen_ext_name(rng: &mut Rng) -> String {
+    match rng.below(12) {
+        0 => "bindname".to_string(),
+        1 => mixed_case(rng, "bindname"),
+        2 => "x-bindpw".to_string(),
+        3 => mixed_case(rng, "x-bindpw"),
+        4 => OID_CRED.to_string(),
+        5 => OID_MECH.to_string(),
+        6 => OID_TLS.to_string(),
+        7 => "BINDNAME".to_string(),
+        8 => "X-BINDPW".to_string(),
+        _ => rng.pick(UNKNOWN_NAMES).to_string(),
+    }
+}
+
+fn gen_ext(rng: &mut Rng, allow_unknown_critical: bool) -> ExtC {
+    let name = gen_ext_name(rng);
+    let known = kind_of(&name);
+    let critical = if known.is_none() && !allow_unknown_critical { false } else { rng.chance(1, 2) };
+    let value = if known == Some("starttls") {
+        None
+    } else {
+        match rng.below(5) {
+            0 => None,
+            1 => Some(String::new()),
+            2 => Some(rng.pick(&["EXTERNAL", "GSSAPI", "secret", "cn=Manager,dc=example,dc=com"]).to_string()),
+            _ => Some(gen_text(rng, 6)),
+        }
+    };
+    ExtC { name, critical, value }
+}
+
+/// components with the given present/omitted pattern (bit 0 attrs, 1 scope, 2 filter, 3 extensions)
+fn gen_comps(rng: &mut Rng, pattern: u8, allow_unknown_critical: bool, allow_dups: bool) -> Comps {
+    let attrs = if pattern & 1 != 0 { (0..rng.range(1, 4)).map(|_| gen_attr(rng)).collect() } else { vec![] };
+    let scope = if pattern & 2 != 0 { Some(rng.below(3) as u8) } else { None };
+    let filter = if pattern & 4 != 0 { Some(gen_filter(rng)) } else { None };
+    let mut exts: Vec<ExtC> = vec![];
+    if pattern & 8 != 0 {
+        let n = rng.range(1, 4);
+        while (exts.len() as u64) < n {
+            let e = gen_ext(rng, allow_unknown_critical);
+            if !allow_dups {
+                if let Some(k) = kind_of(&e.name) {
+                    if exts.iter().any(|x| kind_of(&x.name) == Some(k)) {
+                        continue;
+                    }
+                }
+            }
+            exts.push(e);
+        }
+        // a list whose text is empty is an omitted list: keep the pattern honest
+        if exts.len() == 1 && exts[0].name.is_empty() && !exts[0].critical && exts[0].value.is_none() {
+            exts[0].name = "x-foo".to_string();
+        }
+    }
+    Comps { base: gen_dn(rng), attrs, scope, filter, exts }
+}
+
+fn canon_comps(c: &Comps) -> String {
+    format!(
+        "{} {} {} {} {}",
+        hex(c.base.as_bytes()),
+        if c.attrs.is_empty() { "n".to_string() } else { c.attrs.iter().map(|a| hex(a.as_bytes())).collect::<Vec<_>>().join(",") },
+        match c.scope {
+            None => "n".to_string(),
+            Some(s) => s.to_string(),
+        },
+        match &c.filter {
+            None => "n".to_string(),
+            Some(f) => hex(f.as_bytes()),
+        },
+        if c.exts.is_empty() {
+            "n".to_string()
+        } else {
+            c.exts
+                .iter()
+                .map(|e| {
+                    format!(
+                        "{}:{}:{}",
+                        if e.critical { "c" } else { "o" },
+                        hex(e.name.as_bytes()),
+                        match &e.value {
+                            None => "n".to_string(),
+                            Some(v) => hex(v.as_bytes()),
+                        }
+                    )
+                })
+                .collect::<Vec<_>>()
+                .join(";")
+        }
+    )
+}
+
+// ---------------------------------------------------------------------------------------------
+// running one URL
+
+const HOSTS: &[&str] = &["host", "ldap.example.com:389", "[::1]:636", "", "10.0.0.1"];
+
+/// a path the `url` crate is known to rewrite: RFC 3986 §5.2.4 dot-segment removal (`.`, `..`,
+/// also spelled `%2e`).  The only documented exception to the environment assumption.
+fn has_dot_segment(path: &str) -> bool {
+    path.split('/').any(|seg| {
+        let s = seg.to_ascii_lowercase().replace("%2e", ".");
+        s == "." || s == ".."
+    })
+}
+
+struct Ran {
+    got: String,
+    verbatim: bool,
+}
+
+/// format, parse with the real `Url::parse`, call the real `get_url_params`; emits the M line and the
+/// environment R line.  `None` = the URL did not parse.
+fn run_url(out: &mut Out, rng: &mut Rng, label: &str, path: &str, query: Option<&str>) -> Option<Ran> {
+    let mut host = *rng.pick(HOSTS);
+    if host.is_empty() && (path.starts_with("//") || path.is_empty()) {
+        host = "host"; // "ldap:////x" and "ldap://?q" mean something else to a URL parser
+    }
+    let scheme = *rng.pick(&["ldap", "ldaps", "ldapi", "ldap"]);
+    let s = format!("{}://{}{}{}", scheme, host, path, query.map(|q| format!("?{}", q)).unwrap_or_default());
+    let url = match guarded({
+        let s = s.clone();
+        move || Url::parse(&s)
+    }) {
+        Ok(Ok(u)) => u,
+        Ok(Err(e)) => {
+            out.stat("env.url-parse-error");
+            out.r(&format!("env.url-parses {} {}", label, short(&s)), false, &format!("Url::parse: {}", e));
+            return None;
+        }
+        Err(_) => {
+            out.r(&format!("env.url-parses {} {}", label, short(&s)), false, "Url::parse panicked");
+            return None;
+        }
+    };
+    // the model's `panic` outcome needs a non-ASCII query (C20_no_panic_on_ascii_query)
+    if !url.query().unwrap_or("").is_ascii() || !url.path().is_ascii() {
+        out.r(&format!("env.url-text-is-ascii {}", label), false, &format!("path() = {:?}, query() = {:?}", url.path(), url.query()));
+    }
+    let verbatim = url.path() == path && url.query() == query;
+    if verbatim {
+        out.r("env.url-crate-verbatim", true, "");
+    } else {
+        out.stat("env.url-crate-rewrote");
+        // documented exception: dot-segment removal; anything else is an unexpected failure of the assumption
+        let documented = has_dot_segment(path) && url.query() == query;
+        if documented {
+            out.stat("env.url-crate-rewrote.dot-segment");
+        }
+        out.r(
+            &format!("env.url-crate-rewrote-only-dot-segments {} {}", label, short(&s)),
+            documented,
+            &format!("path() = {:?}, query() = {:?}", url.path(), url.query()),
+        );
+    }
+    let got = real_outcome(&url);
+    out.m(
+        &format!("url.params {} {}", hex(url.path().as_bytes()), url.query().map(|q| hex(q.as_bytes())).unwrap_or("none".to_string())),
+        &got,
+    );
+    out.stat(if got.starts_with("ok") { "outcome.ok" } else if got == "panic" { "outcome.panic" } else { &got });
+    Some(Ran { got, verbatim })
+}
+
+fn short(s: &str) -> String {
+    if s.len() <= 240 && s.is_ascii() && !s.contains('\t') && !s.contains('\n') {
+        s.to_string()
+    } else {
+        format!("fnv{:x}", fnv(s.as_bytes()))
+    }
+}
+
+/// one case: every legal (or the given) amount of omission; M, env and oracle lines
+fn run_case(out: &mut Out, rng: &mut Rng, label: &str, case: &Case, keeps: &[usize], slash: bool) {
+    let raw = case.raw();
+    for &keep in keeps {
+        let (path, query) = fmt_raw(&raw, slash, keep);
+        let ran = match run_url(out, rng, label, &path, query.as_deref()) {
+            Some(r) => r,
+            None => continue,
+        };
+        if !ran.verbatim {
+            continue; // the url crate rewrote the text: the round-trip oracle does not apply
+        }
+        let errs = case.errors();
+        let desc = format!("{} {}{}", label, short(&path), query.as_ref().map(|q| format!("?{}", short(q))).unwrap_or_default());
+        if errs.is_empty() {
+            let want = case.expected_ok();
+            out.r(&format!("url.roundtrip {}", desc), ran.got == want, &format!("got {} want {}", ran.got, want));
+        } else {
+            out.r(&format!("url.error {}", desc), errs.contains(&ran.got.as_str()), &format!("got {} want one of {:?}", ran.got, errs));
+        }
+    }
+}
+
+fn legal_keeps(raw: &Raw) -> Vec<usize> {
+    (min_fields(raw)..=4).collect()
+}
+
+fn needs_encoding(s: &str) -> bool {
+    s.bytes().any(|b| !unreserved(b))
+}
+
+fn structured(out: &mut Out, rng: &mut Rng, label: &str, style: Style, c: &Comps, o_line: bool) {
+    let case = case_of(style, c);
+    let raw = case.raw();
+    let canon = format!("{} {}", style.name(), canon_comps(c));
+    out.case(&canon, needs_encoding(&c.base) || c.filter.as_deref().map(needs_encoding).unwrap_or(false) || !c.exts.is_empty());
+    let keeps = legal_keeps(&raw);
+    if o_line {
+        // the lane's formatter is the Lean `Spec.format` (the function the theorems are about)
+        for &keep in &keeps {
+            let (p, q) = fmt_raw(&raw, true, keep);
+            out.o(
+                &format!("spec.url.format {} 1 {} {}", style.name(), keep, canon_comps(c)),
+                &format!("path={} query={}", hex(p.as_bytes()), q.map(|q| hex(q.as_bytes())).unwrap_or("none".to_string())),
+            );
+        }
+    }
+    run_case(out, rng, label, &case, &keeps, true);
+    if c.base.is_empty() && min_fields(&raw) == 0 {
+        out.stat("omit.no-slash");
+        if o_line {
+            let (p, q) = fmt_raw(&raw, false, 0);
+            out.o(
+                &format!("spec.url.format {} 0 0 {}", style.name(), canon_comps(c)),
+                &format!("path={} query={}", hex(p.as_bytes()), q.map(|q| hex(q.as_bytes())).unwrap_or("none".to_string())),
+            );
+        }
+        run_case(out, rng, label, &case, &[0], false);
+    }
+}
+
+/// percent sequences injected as text: (text, decoded bytes or None when the result is not UTF-8)
+const INJECT: &[(&str, Option<&[u8]>)] = &[
+    ("%ff", None),
+    ("%FF", None),
+    ("%c3", None),
+    ("%c3%28", None),
+    ("%e2%82", None),
+    ("%f0%9f%92", None),
+    ("%ed%a0%80", None),
+    ("%c0%af", None),
+    ("%f4%90%80%80", None),
+    ("%80", None),
+    ("%bf", None),
+    ("%fe", None),
+    ("%g1", Some(b"%g1")),
+    ("%1g", Some(b"%1g")),
+    ("%zz", Some(b"%zz")),
+    ("%%41", Some(b"%A")),
+    ("%25ff", Some(b"%ff")),
+    ("%c3%a9", Some("é".as_bytes())),
+    ("%C3%a9", Some("é".as_bytes())),
+    ("%e2%82%ac", Some("€".as_bytes())),
+    ("%f0%9d%84%9e", Some("𝄞".as_bytes())),
+    ("%F4%8F%BF%BF", Some("\u{10ffff}".as_bytes())),
+    ("%00", Some(b"\0")),
+    ("%7f", Some(b"\x7f")),
+];
+
+/// incomplete sequences: kept literally, provided no hex digit follows
+const INCOMPLETE: &[&str] = &["%", "%2", "%c", "%%", "%%2"];
+
+/// (text, decoded) of `prefix ++ injected ++ suffix`
+fn inject(rng: &mut Rng, style: Style, pos: Pos) -> (String, Option<Vec<u8>>, &'static str) {
+    let pre = gen_text(rng, 3);
+    let mut txt = pct_encode(style, pos, pre.as_bytes());
+    let mut val = pre.as_bytes().to_vec();
+    if rng.chance(1, 4) {
+        let inc = *rng.pick(INCOMPLETE);
+        txt.push_str(inc);
+        val.extend(inc.as_bytes());
+        if rng.chance(1, 2) {
+            let suf = format!("x{}", gen_text(rng, 2));
+            txt.push_str(&pct_encode(style, pos, suf.as_bytes()));
+            val.extend(suf.as_bytes());
+        }
+        (txt, Some(val), "incomplete")
+    } else {
+        let (t, d) = *rng.pick(INJECT);
+        txt.push_str(t);
+        let suf = gen_text(rng, 3);
+        txt.push_str(&pct_encode(style, pos, suf.as_bytes()));
+        match d {
+            Some(d) => {
+                val.extend(d);
+                val.extend(suf.as_bytes());
+                (txt, Some(val), "valid-or-literal")
+            }
+            None => (txt, None, "not-utf8"),
+        }
+    }
+}
+
+const BAD_SCOPES: &[&str] = &[
+    "BASE", "Base", "One", "SUB", "subtree", "onelevel", "base%20", "bas", "b", "0", "1", "2", "%62ase", "b%61se", "one,sub", "base=1", "sub!", "sube", "%20", "*", "baseone", "o%6ee", "sub%00",
+    "children", "subordinates",
+];
+
+pub fn run(thorough: bool, mut rng: Rng, mut out: Out) {
+    let rng = &mut rng;
+    let out_ref = &mut out;
+    // ---- corpus: RFC 4516 §4 examples, the crate's doc example, witnesses
+    let corpus: &[(&str, Option<&str>)] = &[
+        ("/o=University%20of%20Michigan,c=US", None),
+        ("/o=University%20of%20Michigan,c=US", Some("postalAddress")),
+        ("/o=University%20of%20Michigan,c=US", Some("?sub?(cn=Babs%20Jensen)")),
+        ("/c=GB", Some("objectClass?one")),
+        ("/o=Question%3f,c=US", Some("mail")),
+        ("/o=University%20of%20Michigan,c=US", Some("??sub?(cn=Babs%20Jensen)")),
+        ("/o=An%20Example%5C2C%20Inc.,c=US", None),
+        ("/", Some("??sub??e-bindname=cn=Manager%2cdc=example%2cdc=com")),
+        ("/", Some("??sub??!e-bindname=cn=Manager%2cdc=example%2cdc=com")),
+        ("/", Some("???1.3.6.1.4.1.10094.1.5.2=EXTERNAL")),
+        ("/", Some("???bindname=cn=Manager%2cdc=example%2cdc=com,x-bindpw=secret")),
+        ("/", Some("???1.3.6.1.4.1.1466.20037")),
+        ("/", Some("???!1.3.6.1.4.1.1466.20037=ignored")),
+        ("", None),
+        ("/", None),
+        ("/", Some("")),
+        ("/", Some("?")),
+        ("/", Some("??")),
+        ("/", Some("???")),
+        ("/", Some("????")),
+        ("/", Some("?????")),
+        ("/", Some("???,")),
+        ("/", Some("???!")),
+        ("/", Some("???!=")),
+        ("/", Some("???=")),
+        ("/", Some("???,,bindname=a,,")),
+        ("/", Some("???bindname=a=b=c")),
+        ("/", Some("???bindname=a?b")),
+        ("/", Some("???!!bindname=a")),
+        ("/", Some("cn,,sn")),
+        ("/", Some(",")),
+        ("/", Some("%63n")),
+        ("//", None),
+        ("//dc=x", None),
+        ("/%2f", None),
+        ("/%ff", None),
+        ("/dc=x", Some("?base?%ff")),
+        ("/dc=x", Some("???x-foo=%ff")),
+        ("/dc=x", Some("???!x-foo,bindname=%ff")),
+        ("/dc=x", Some("???bindname=%ff,!x-foo")),
+        ("/dc=x", Some("?bad?%ff?!x-foo")),
+        ("/%ff", Some("?bad")),
+    ];
+    for (p, q) in corpus {
+        out_ref.case(&format!("corpus {} {:?}", p, q), true);
+        out_ref.stat("stream.corpus");
+        run_url(out_ref, rng, "corpus", p, *q);
+    }
+    // the documented exception to the environment assumption, as explicit cases
+    for p in ["/.", "/..", "/%2e", "/%2E%2e", "/a/../b", "/cn=a/./b", "/./x", "/../.."] {
+        out_ref.case(&format!("dotseg {}", p), true);
+        out_ref.stat("stream.dot-segment");
+        run_url(out_ref, rng, "dotseg", p, None);
+    }
+
+    let rounds = if thorough { 400 } else { 50 };
+    // ---- structured: every present/omitted pattern, every legal amount of omission, every style
+    for round in 0..rounds {
+        for pattern in 0u8..16 {
+            for &style in STYLES {
+                let c = gen_comps(rng, pattern, false, false);
+                out_ref.stat(&format!("pattern={:04b}", pattern));
+                out_ref.stat("stream.structured");
+                structured(out_ref, rng, "wf", style, &c, round % 4 == 0);
+            }
+        }
+    }
+    // ---- extension matrix: recognised/unknown x critical/non-critical, duplicates, mixed case
+    let names: Vec<String> = {
+        let mut v: Vec<String> = vec!["bindname", "BindName", "BINDNAME", "bINDNAMe", "x-bindpw", "X-BindPW", "X-BINDPW", OID_CRED, OID_MECH, OID_TLS].iter().map(|s| s.to_string()).collect();
+        v.extend(UNKNOWN_NAMES.iter().map(|s| s.to_string()));
+        v
+    };
+    for name in &names {
+        for critical in [false, true] {
+            for value in [None, Some(""), Some("v"), Some("a,b=c?d é%")] {
+                if kind_of(name) == Some("starttls") && value.is_some() {
+                    continue; // probed separately (value is dropped)
+                }
+                let e = ExtC { name: name.clone(), critical, value: value.map(|v| v.to_string()) };
+                if e.name.is_empty() && !e.critical && e.value.is_none() {
+                    continue;
+                }
+                for &style in &[Style::Strict, Style::MinimalLc] {
+                    let c = Comps { base: "dc=x".to_string(), attrs: vec![], scope: None, filter: None, exts: vec![e.clone()] };
+                    out_ref.stat("stream.ext-matrix");
+                    out_ref.stat(&format!("ext.{}.{}", if kind_of(name).is_some() { "recognised" } else { "unknown" }, if critical { "critical" } else { "noncritical" }));
+                    structured(out_ref, rng, "ext1", style, &c, true);
+                }
+            }
+        }
+    }
+    // pairs: every ordered pair of a representative of each class (incl. duplicates of a kind)
+    let reps: Vec<(String, bool)> = {
+        let mut v = vec![];
+        for n in ["bindname", "BINDname", "x-bindpw", "X-bindPW", OID_CRED, OID_MECH, OID_TLS, "x-foo", "1.2.3", ""] {
+            for c in [false, true] {
+                v.push((n.to_string(), c));
+            }
+        }
+        v
+    };
+    let mut vi = 0;
+    for (n1, c1) in &reps {
+        for (n2, c2) in &reps {
+            let mk = |n: &String, c: bool, vi: &mut usize| {
+                *vi += 1;
+                let value = if kind_of(n) == Some("starttls") { None } else { Some(format!("v{}", *vi)) };
+                ExtC { name: n.clone(), critical: c, value }
+            };
+            let e1 = mk(n1, *c1, &mut vi);
+            let e2 = mk(n2, *c2, &mut vi);
+            if kind_of(n1).is_some() && kind_of(n1) == kind_of(n2) {
+                out_ref.stat("ext.duplicate-kind");
+            }
+            let c = Comps { base: String::new(), attrs: vec![], scope: None, filter: None, exts: vec![e1, e2] };
+            out_ref.stat("stream.ext-pairs");
+            structured(out_ref, rng, "ext2", Style::Strict, &c, false);
+        }
+    }
+    // random lists with duplicates and unknown critical ones
+    for _ in 0..rounds * 25 {
+        let pattern = 8 | rng.below(8) as u8;
+        let c = gen_comps(rng, pattern, true, true);
+        let style = *rng.pick(STYLES);
+        let kinds: Vec<_> = c.exts.iter().filter_map(|e| kind_of(&e.name)).collect();
+        if (1..kinds.len()).any(|i| kinds[..i].contains(&kinds[i])) {
+            out_ref.stat("ext.duplicate-kind");
+        }
+        if c.exts.iter().any(|e| e.critical && kind_of(&e.name).is_none()) {
+            out_ref.stat("ext.has-unknown-critical");
+        }
+        out_ref.stat("stream.ext-random");
+        structured(out_ref, rng, "extn", style, &c, false);
+    }
+    // ---- invalid scope words
+    for _ in 0..rounds {
+        for w in BAD_SCOPES {
+            let pattern = rng.below(16) as u8;
+            let c = gen_comps(rng, pattern, false, false);
+            let style = *rng.pick(STYLES);
+            let mut case = case_of(style, &c);
+            case.scope_txt = w.to_string();
+            case.scope_val = None;
+            out_ref.case(&format!("badscope {} {} {}", w, style.name(), canon_comps(&c)), true);
+            out_ref.stat("stream.bad-scope");
+            let keeps = legal_keeps(&case.raw());
+            run_case(out_ref, rng, "badscope", &case, &keeps, true);
+        }
+    }
+    // ---- broken / literal / valid percent sequences in base, filter, extension values
+    for _ in 0..rounds * 40 {
+        let pattern = rng.below(16) as u8;
+        let c = gen_comps(rng, pattern, false, true);
+        let style = *rng.pick(STYLES);
+        let mut case = case_of(style, &c);
+        let whr = rng.below(3);
+        let kind;
+        match whr {
+            0 => {
+                let (t, v, k) = inject(rng, style, Pos::Dn);
+                case.dn_txt = t;
+                case.dn_val = v;
+                kind = k;
+                out_ref.stat("pct.in-base");
+            }
+            1 => {
+                let (mut t, mut v, k) = inject(rng, style, Pos::Filter);
+                if t.is_empty() {
+                    t = "x".to_string();
+                    v = Some(b"x".to_vec());
+                }
+                case.filter_txt = t;
+                case.filter_val = v;
+                kind = k;
+                out_ref.stat("pct.in-filter");
+            }
+            _ => {
+                let (t, v, k) = inject(rng, style, Pos::Val);
+                let name = gen_ext_name(rng);
+                let critical = kind_of(&name).is_some() && rng.chance(1, 2);
+                let e = ExtT { txt: fmt_ext_raw(critical, &name, Some(&t)), name: name.clone(), critical, val: v };
+                let at = rng.below(case.exts.len() as u64 + 1) as usize;
+                case.exts.insert(at, e);
+                kind = k;
+                out_ref.stat(&format!("pct.in-ext-value.{}", kind_of(&name).unwrap_or("unknown")));
+            }
+        }
+        out_ref.stat(&format!("pct.{}", kind));
+        let raw = case.raw();
+        out_ref.case(&format!("pct {} {:?}", style.name(), raw), true);
+        out_ref.stat("stream.percent");
+        let keeps = legal_keeps(&raw);
+        run_case(out_ref, rng, "pct", &case, &keeps, true);
+    }
+    // ---- probes of the WFC hypotheses: inputs outside WFC, with the behaviour the Spec comments document
+    {
+        let base = Comps { base: "dc=x".to_string(), attrs: vec![], scope: None, filter: None, exts: vec![] };
+        let probe = |out: &mut Out, rng: &mut Rng, name: &str, f: &dyn Fn(&mut Case)| {
+            let mut case = case_of(Style::Strict, &base);
+            f(&mut case);
+            out.case(&format!("probe {}", name), true);
+            out.stat(&format!("probe.{}", name));
+            let keeps = legal_keeps(&case.raw());
+            run_case(out, rng, &format!("probe.{}", name), &case, &keeps, true);
+        };
+        // attribute descriptions are NOT percent-decoded
+        probe(out_ref, rng, "attr.pct-not-decoded", &|c| {
+            c.attrs_txt = "%63n,s%6E".to_string();
+            c.attrs_val = vec![b"%63n".to_vec(), b"s%6E".to_vec()];
+        });
+        // an empty entry of the attribute list is returned as an empty name
+        probe(out_ref, rng, "attr.empty-list-entry", &|c| {
+            c.attrs_txt = "cn,,sn,".to_string();
+            c.attrs_val = vec![b"cn".to_vec(), vec![], b"sn".to_vec(), vec![]];
+        });
+        // a present-but-empty filter reads as the default filter
+        probe(out_ref, rng, "filter.empty", &|c| {
+            c.attrs_txt = "cn".to_string();
+            c.attrs_val = vec![b"cn".to_vec()];
+            c.scope_txt = "one".to_string();
+            c.scope_val = Some(1);
+            c.filter_txt = String::new();
+            c.filter_val = Some(DEFAULT_FILTER.to_vec());
+            c.exts = vec![ExtT { txt: "x-foo".to_string(), name: "x-foo".to_string(), critical: false, val: Some(vec![]) }];
+        });
+        // extension types are NOT percent-decoded: `%62indname` is an unknown extension
+        probe(out_ref, rng, "ext.name-pct-not-decoded", &|c| {
+            c.exts = vec![ExtT { txt: "%62indname=v".to_string(), name: "%62indname".to_string(), critical: false, val: Some(b"v".to_vec()) }];
+        });
+        probe(out_ref, rng, "ext.name-pct-not-decoded-critical", &|c| {
+            c.exts = vec![ExtT { txt: "!%62indname=v".to_string(), name: "%62indname".to_string(), critical: true, val: Some(b"v".to_vec()) }];
+        });
+        // a percent-encoded `!` is not a criticality mark
+        probe(out_ref, rng, "ext.pct-bang-not-critical", &|c| {
+            c.exts = vec![ExtT { txt: "%21x-foo=v".to_string(), name: "%21x-foo".to_string(), critical: false, val: Some(b"v".to_vec()) }];
+        });
+        // StartTLS with a value: value dropped
+        probe(out_ref, rng, "ext.starttls-value-dropped", &|c| {
+            c.exts = vec![ExtT { txt: format!("{}=abc", OID_TLS), name: OID_TLS.to_string(), critical: true, val: Some(b"abc".to_vec()) }];
+        });
+        // a not-UTF-8 value is an error even in an extension that would be ignored, and in StartTLS
+        probe(out_ref, rng, "ext.ignored-ext-bad-value-is-error", &|c| {
+            c.exts = vec![ExtT { txt: "x-foo=%ff".to_string(), name: "x-foo".to_string(), critical: false, val: None }];
+        });
+        probe(out_ref, rng, "ext.starttls-bad-value-is-error", &|c| {
+            c.exts = vec![ExtT { txt: format!("{}=%ff", OID_TLS), name: OID_TLS.to_string(), critical: false, val: None }];
+        });
+        // the scope word is matched case-sensitively and not percent-decoded
+        probe(out_ref, rng, "scope.uppercase-rejected", &|c| {
+            c.scope_txt = "BASE".to_string();
+            c.scope_val = None;
+        });
+    }
+    // ---- malformed stream: arbitrary printable text as path and query (model vs code only)
+    let nrand = if thorough { 60000 } else { 6000 };
+    for _ in 0..nrand {
+        let path = format!("/{}", rand_text(rng, 10));
+        let query = if rng.chance(1, 8) { None } else { Some(rand_text(rng, 24)) };
+        out_ref.case(&format!("rand {} {:?}", path, query), query.is_some());
+        out_ref.stat("stream.random-text");
+        // through the url crate, which may rewrite it; compare model and code on what it returned
+        let s = format!("ldap://host{}{}", path, query.as_ref().map(|q| format!("?{}", q)).unwrap_or_default());
+        if let Ok(Ok(url)) = guarded({
+            let s = s.clone();
+            move || Url::parse(&s)
+        }) {
+            if url.path() != path || url.query() != query.as_deref() {
+                out_ref.stat("random-text.url-crate-rewrote");
+            }
+            out_ref.r("env.url-text-is-ascii", url.query().unwrap_or("").is_ascii() && url.path().is_ascii(), &short(&s));
+            let got = real_outcome(&url);
+            out_ref.stat(if got.starts_with("ok") { "outcome.ok" } else if got == "panic" { "outcome.panic" } else { &got });
+            out_ref.m(
+                &format!("url.params {} {}", hex(url.path().as_bytes()), url.query().map(|q| hex(q.as_bytes())).unwrap_or("none".to_string())),
+                &got,
+            );
+            out_ref.r("url.no-panic", got != "panic", &short(&s));
+        } else {
+            out_ref.stat("random-text.unparsable");
+        }
+    }
+    out.finish("components from a Unicode-heavy alphabet (? , = % # SP / e-acute G-clef + ! ...), all 16 present/omitted patterns x every legal number of written query fields x 4 percent-encoding styles, extension matrix (recognised/unknown x critical/non-critical x value forms, all ordered pairs incl. duplicate kinds, mixed-case names), invalid scope words, broken/literal/valid percent sequences injected into base, filter and extension values, WFC-hypothesis probes, random printable path/query text; every URL through the real Url::parse; non-trivial = some component needs percent-encoding or an extension is present; distinct by FNV hash of style + components");
+}
+
+const RAND_TOKENS: &[&str] = &[
+    "?", "?", "?", ",", ",", "=", "!", "%", "%4", "%41", "%c3%a9", "%ff", "%2c", "%3f", "%3d", "%21", "base", "one", "sub", "bindname", "x-bindpw", "BindName", OID_CRED, OID_MECH, OID_TLS, "a", "b", "cn",
+    "(", ")", "*", "é", " ", "#", "/", "..", ".", "\\", "+", "x-foo", "1.2", "-", "_", "~", "'", "\"", "&", ";", ":", "@", "[", "]", "𝄞",
+];
+
+fn rand_text(rng: &mut Rng, max: u64) -> String {
+    let n = rng.below(max + 1);
+    let mut s = String::new();
+    for _ in 0..n {
+        s.push_str(*rng.pick(RAND_TOKENS));
+    }
+    s
 }
